@@ -308,8 +308,18 @@ def execute(scenario, tape):
         def after_refusal(rec):
             if rec.r.ok or type(rec.r.exc).__name__ != 'InvalidState':
                 return
-            app = live_long_app()
-            if app is not None:
+            if not w.net.conns:
+                return
+            tcp = w.net.conns[-1]       # the session the refusal protects
+
+            def ready():
+                a = tcp.app
+                return a is not None and (a.reached_play or a.fin_seen
+                                          or a.state == 'dead')
+            w.wait_until(lambda: ready() or quiet(), 8000000)
+            app = tcp.app
+            if app is not None and app.reached_play and not app.fin_seen \
+                    and app.beh.get('kind') == 'long':
                 rec.extra = probe(app)
 
         def user(k):
@@ -538,7 +548,12 @@ def check(scenario, w, st, res):
         if any(o.r.inv < d.r.ret and (o.r.ret or 10**12) > d.r.inv
                for o in opens):
             continue          # concurrent with an opening call: either
-        nxt = min([o.r.inv for o in opens if o.r.inv > d.r.ret] or [10**12])
+        # window end: the next opening call's invocation - or its return if
+        # it was refused (a refused call changes nothing itself)
+        nxt = min([(o.r.ret if (not o.r.ok and o.r.ret is not None and
+                                type(o.r.exc).__name__ == 'InvalidState')
+                    else o.r.inv)
+                   for o in opens if o.r.inv > d.r.ret] or [10**12])
         # linearisation point: the call's last visible effect, else return
         lin = d.r.ret
         eff = [seq for seq, tid, kind, dd, vt in hist
